@@ -24,7 +24,9 @@ def laneRows8 (rows : BitVec 256 × BitVec 256 × BitVec 256 × BitVec 256) (j :
 syntax "vec8_ls" : tactic
 macro_rules
   | `(tactic| vec8_ls) => `(tactic|
-    (bv_bits 128 <;> simp [gen_unfold, packT, laneRows8, pack4_getElem, lane, extractLsb'_extractLsb'_le]))
-
+    (simp only [gen_unfold, packT, laneRows8, pack4, lane, Nat.reduceMul]
+     apply eq_of_lanes 8 16 (by decide) (by decide)
+     intro i hi
+     nat_cases i 16 <;> (simp only [lane, Nat.reduceMul, extractLsb'_extractLsb'_le, Nat.reduceAdd]; seg_windows; try (bv_bits 8 <;> simp))))
 
 end SkinnyVerif.Lemmas
